@@ -3,6 +3,8 @@ CONSTANTS
   Cpus <- MCCpus
   PkgOf <- MCPkgOf
   Defs <- MCDefs
+  CoreOf <- MCCoreOf
+  ShareDeviation = "none"
   Ctrs = {c1, c2}
   Reqs = {0, 500, 1500}
   ClassDeviation = "none"
@@ -10,4 +12,4 @@ CONSTANTS
   c2 = c2
   c3 = c3
 
-INVARIANTS Inv_BalloonsDisjoint Inv_BalloonsWithinAllowed Inv_FreeCpusAreUnowned Inv_OneBalloonPerCtr Inv_SharedIdleNotOwned Inv_SharedIdleCoversScope Inv_MinMaxCpus Inv_MinMaxInstances Inv_NonEmptyHasCpus Inv_CpuClass Inv_Quiescent
+INVARIANTS Inv_BalloonsDisjoint Inv_BalloonsWithinAllowed Inv_FreeCpusAreUnowned Inv_OneBalloonPerCtr Inv_SharedIdleNotOwned Inv_SharedIdleCoversScope Inv_MinMaxCpus Inv_MinMaxInstances Inv_NonEmptyHasCpus Inv_ToldIsCpusPlusShared Inv_ToldNonEmpty Inv_CpuClass Inv_Quiescent
